@@ -1,7 +1,7 @@
 ----------------------------- MODULE Cover_DiffU -----------------------------
 (* Transition cover of the stream model on diff -u input (see Cover_Stream). *)
 EXTENDS Naturals, Sequences, FiniteSets, TLC, Json
-CONSTANTS NF, MaxLen, MaxHunks, MaxOld, MaxNew, Titled, Ambig, Buf, Fixes, ColorOnly
+CONSTANTS NF, MaxLen, MaxHunks, MaxOld, MaxNew, Titled, Ambig, Buf, Fixes, ColorOnly, Modes
 VARIABLES hist, gs, s
 E == INSTANCE Env_DiffU
 I == INSTANCE Impl_Stream
